@@ -86,6 +86,8 @@ def run_core(ctx, mode):
         c = gen_core.gen_case(ctx.seed, i, n_states=4, n_calls=3)
         if i % 2 == 1:
             c["layout"] = ctx.seed * 100000 + i
+        if i % 4 >= 2:
+            c["reuse_op"] = True        # one Operator object per call for all the states of the case
         if mode == "pre" and i % 3 == 0:
             # editing the precondition through the public mutators (add_condition / remove_condition) and a
             # shallow copy of the domain: the edited action must behave as the edited formula
@@ -165,6 +167,11 @@ def run_c20(ctx):
         crng.shuffle(calls)
         cases.append({"id": 700000 + i, "tree": hc["dom"], "objs": hc["objs"],
                       "states": [gen_core.random_state(crng, hc["objs"])], "calls": calls})
+    # every other random case: the report is read from an Operator that has already been queried and applied (to a
+    # state without any fact, then to the case's state) - what is reported for the call does not depend on that
+    for c in cases[n_gen:]:
+        if c["id"] % 2 == 0:
+            c["use_first"] = True
     tf = ctx.drive("core", cases, hashseeds=hashseeds, opts={"snaps": False})
     ctx.validate(tf, {c["id"]: c for c in cases}, driver="core", opts={"snaps": False})
     n = 0
@@ -202,6 +209,23 @@ def run_c18(ctx):
         params = _params_of(c["tree"])
         c["rename"] = gen_core.rename_map(rng, params)
         c["ground"] = False
+        cases.append(c)
+    # a universal effect whose variable shadows a parameter, next to other universal effects in which that parameter
+    # occurs free: renamed to fresh names only (a new name equal to a bound variable would be captured)
+    k = 0
+    want = 80 if quick else 1600
+    while sum(1 for c in cases if c.get("shadow")) < want and k < want * 40:
+        k += 1
+        c = gen_core.gen_case(ctx.seed, 95000 + k, n_states=3, n_calls=2, with_shadow=True, shadow_p=0.5)
+        params = _params_of(c["tree"])
+        eff = c["tree"]["c"][-1]["c"][-1]
+        foralls = [x for x in eff["c"] if x["t"] == "l" and x["c"] and x["c"][0].get("v") == "forall"]
+        bound = [x["c"][1]["c"][0]["v"] for x in foralls]
+        if len(foralls) < 2 or not any(b in [p for p, _ in params] for b in bound) or len(set(bound)) < 2:
+            continue
+        c["rename"] = gen_core.rename_map(rng, params, kinds=("fresh", "param_i"))
+        c["ground"] = False
+        c["shadow"] = True
         cases.append(c)
     # several (in)equalities between the parameters under permutations / chains of their names
     for i in range(100 if quick else 2000):
